@@ -236,7 +236,32 @@ var reNcallsStr = regexp.MustCompile(`ncalls\("([^"]*)"\)`)
 // VerifyFunc generates the obligations of one function under contract.
 func (E *Engine) VerifyFunc(p *packages.Package, pc *PkgContracts, c *FuncContract) (res *FuncResult) {
 	res = &FuncResult{Key: c.Key, Pkg: p.PkgPath, Mode: c.Mode, Trusted: c.Trusted}
-	decl := E.findDecl(p, c.Key)
+	baseKey, litOrd := c.Key, 0
+	if i := strings.Index(c.Key, "$"); i >= 0 {
+		baseKey = c.Key[:i]
+		fmt.Sscanf(c.Key[i+1:], "%d", &litOrd)
+	}
+	decl := E.findDecl(p, baseKey)
+	var lit *ast.FuncLit
+	if litOrd > 0 && decl != nil && decl.Body != nil {
+		// a function literal under contract: <Func>$<n> is the n-th literal (pre-order) in Func's body;
+		// its captured variables are implicit, unconstrained parameters
+		n := 0
+		ast.Inspect(decl.Body, func(nd ast.Node) bool {
+			if fl, ok := nd.(*ast.FuncLit); ok {
+				n++
+				if n == litOrd {
+					lit = fl
+				}
+			}
+			return lit == nil
+		})
+		if lit == nil {
+			decl = nil
+		} else {
+			decl = &ast.FuncDecl{Name: ast.NewIdent(c.Key), Type: lit.Type, Body: lit.Body}
+		}
+	}
 	f := &FuncCtx{E: E, Pkg: p, Decl: decl, C: c, PC: pc, S: NewSorts(modulePath), key: p.Types.Name() + "." + c.Key,
 		callOrd: map[string]int{}, safeOrd: map[string]int{}, trackCall: map[string]bool{}, notes: map[string]bool{},
 		heap0: map[string]string{}, heapSort: map[string][2]string{}, globals: map[types.Object]Val{}, pures: map[string]bool{},
@@ -292,8 +317,12 @@ func (E *Engine) VerifyFunc(p *packages.Package, pc *PkgContracts, c *FuncContra
 		_ = k
 	}
 	info := p.TypesInfo
-	fnObj := info.Defs[decl.Name].(*types.Func)
-	sig := fnObj.Type().(*types.Signature)
+	var sig *types.Signature
+	if lit != nil {
+		sig = info.TypeOf(lit).(*types.Signature)
+	} else {
+		sig = info.Defs[decl.Name].(*types.Func).Type().(*types.Signature)
+	}
 	env := &Env{vars: map[types.Object]Val{}, names: map[string]Val{}, heap: map[string]string{}, pc: "true"}
 	fr := &frame{c: c, pc: pc, pkg: p, sig: sig, scope: decl.Body, name: c.Key}
 	f.fr = fr
@@ -325,6 +354,25 @@ func (E *Engine) VerifyFunc(p *packages.Package, pc *PkgContracts, c *FuncContra
 				}
 			}
 		}
+	}
+	if lit != nil {
+		var caps []*types.Var
+		seen := map[*types.Var]bool{}
+		ast.Inspect(lit.Body, func(nd ast.Node) bool {
+			if id, ok := nd.(*ast.Ident); ok {
+				if v, ok := info.Uses[id].(*types.Var); ok && !v.IsField() && !seen[v] {
+					if v.Pkg() != nil && v.Parent() != v.Pkg().Scope() && (v.Pos() < lit.Pos() || v.Pos() > lit.End()) {
+						seen[v] = true
+						caps = append(caps, v)
+					}
+				}
+			}
+			return true
+		})
+		for _, v := range caps {
+			env.vars[v] = f.freshVal(v.Type(), v.Name())
+		}
+		f.note("function literal verified with its captured variables as unconstrained inputs")
 	}
 	for name := range f.trackCall {
 		env.names["calls:"+name] = Val{T: "0", Typ: types.Typ[types.Int]}
@@ -450,6 +498,10 @@ func (f *FuncCtx) emitAxiomsOf(pc *PkgContracts, pkg *types.Package, env *Env) {
 	for i, ax := range pc.Axioms {
 		sc := &specCtx{nolocals: true, pcs: pc, pkg: pkg}
 		t := f.evalClause(ax, env, sc)
+		if f.clauseErr != "" {
+			f.fail("axiom %s cannot be translated: %s", pc.AxiomNames[i], f.clauseErr)
+			f.clauseErr = ""
+		}
 		f.emit(fmt.Sprintf("(assert %s) ; axiom %s", t, pc.AxiomNames[i]))
 		f.note("axiom assumed: " + pc.AxiomNames[i] + ": " + ax.Text)
 	}
